@@ -28,6 +28,13 @@ def obligations(tier):
     for host in ("indicator", "hexital", "hexital-member"):
         nn = 7 if tier == "quick" else 8
         obs.append(Ob(f"{host}/SMA/tf=T2/step=40s/n={nn}", dict(tf="T2", host=host, ind=["SMA", dict(period=2)], n=nn, step=40), CFG, weight=nn, budget_s=900))
+    # any four non-negative prices per candle (a close-only feed padded with zeros, stale high/low columns): the recurrence
+    # is stated on the numbers as given and does not assume low <= open, close <= high
+    for host in ("indicator", "hexital"):
+        for tf in (None, "T2"):
+            for ind in (("SMA", dict(period=2, input_value="high")), ("SMA", dict(period=2, input_value="low"))):
+                nn = n if tf is None else n + 2
+                obs.append(Ob(f"{host}/SMA({ind[1]['input_value']})/tf={tf}/any OHLC values/n={nn}", dict(tf=tf, host=host, ind=list(ind), n=nn, any_ohlc=True), CFG, weight=nn, budget_s=900))
     # maintenance operations between the appends (purge, recalculate, a further member added, a member added and removed):
     # 'each candle is converted exactly once' whatever is done to the readings in between
     for host in ("indicator", "hexital", "hexital-member"):
@@ -119,7 +126,7 @@ def run(ctx, P):
     name, kw = P["ind"]
     _, _, Candle, _, Hexital = lib()
     step = P.get("step", 60)
-    cs = mk_candles(ctx, n, zero_ok=True, step=step, start=GRID0 + step * P.get("start", 1))     # the HA formulas have no division: prices of exactly 0 are inside the domain
+    cs = mk_candles(ctx, n, zero_ok=True, step=step, start=GRID0 + step * P.get("start", 1), wellformed=not P.get("any_ohlc"))     # the HA formulas have no division: prices of exactly 0 are inside the domain
     if tf:
         ts = [ctx.sec_of(c.timestamp) for c in cs]
         raw = [dict(ts=b["ts"], open=b["open"], high=b["high"], low=b["low"], close=b["close"], volume=b["volume"]) for b in ref_resample(ctx, cs, ts, tf_secs(tf))]
